@@ -4,7 +4,7 @@
 #include <stdio.h>
 #include <stdlib.h>
 #include <string.h>
-#include "/repo/include/definitions/bidib_messages.h"
+#include "include/definitions/bidib_messages.h"
 
 static void set_uid(cm_board_t *b, const uint8_t u[7]) { memcpy(b->uid, u, 7); }
 static cm_aspect_t asp(const char *id, uint8_t v) { cm_aspect_t a; memset(&a, 0, sizeof a); snprintf(a.id, sizeof a.id, "%s", id); a.value = v; return a; }
